@@ -23,7 +23,11 @@ def mk_snaps(frames, H, types, lo=None, steps=None):
     from PyMatterSim.reader.reader_utils import Snapshots
 
     steps = steps if steps is not None else [100 * t for t in range(len(frames))]
-    return Snapshots(len(frames), [mk_snap(p, H, types, lo, ts=steps[t]) for t, p in enumerate(frames)])
+    # `types` may be one list (all frames) or one list per frame (species attached to ids change between frames);
+    # `H` may be one matrix or one matrix per frame
+    tf = types if (len(types) and np.ndim(types[0]) > 0) else [types] * len(frames)
+    Hf = H if np.ndim(H) == 3 else [H] * len(frames)
+    return Snapshots(len(frames), [mk_snap(p, Hf[t], tf[t], lo, ts=steps[t]) for t, p in enumerate(frames)])
 
 
 def minimg(r, H, ppp):
